@@ -91,6 +91,9 @@ class Driver:
         self.validators = validators
         self.st = None
         self.bcasts = []
+        self.bcasts_all = []
+        self.wedged = False
+        self.held = False       # the harness holds the environment's writer lock: the writer thread cannot begin its transaction
 
     async def open(self):
         import lmdb
@@ -103,17 +106,51 @@ class Driver:
 
         async def notify_all_connected(event):
             self.bcasts.append(event.id)
+            self.bcasts_all.append(event.id)
         st.notify_all_connected = notify_all_connected
         return self
 
     async def close(self):
         import lmdb
         lmdb.reset_controls()
-        await env.close(self.st)
+        st = self.st
+        if self.held:
+            st.db._wlock.release()
+            self.held = False
+        # never join a writer thread that may be stuck (e.g. on a transaction lock that is never released)
+        try:
+            st.writer_thread.running = False
+            st.writer_queue.put(None)
+            st.writer_thread.join(0.2 if self.wedged else 3.0)
+            st.query_pool.shutdown(wait=False)
+            if not st.writer_thread.is_alive():
+                st.db.close()
+        except Exception:
+            pass
         lmdb.wipe(self.path)
 
+    async def quiesce(self, limit=4.0):
+        """bounded wait until the writer has finished every queued operation: its queue is empty, it is not
+        processing, and at least one write transaction per queued operation has ended - observed on three
+        consecutive polls; False = it never got there"""
+        import asyncio
+        import lmdb
+        import time as _t
+        st = self.st
+        t0 = _t.monotonic()
+        seen = 0
+        while _t.monotonic() - t0 < limit:
+            if lmdb.WRITE_TXNS_DONE[0] - st._base_done >= st._submitted and st.writer_queue.empty() and not st.writer_thread.processing:
+                seen += 1
+                if seen >= 3:
+                    return True
+            else:
+                seen = 0
+            await asyncio.sleep(0.0004)
+        return False
+
     async def dump(self):
-        return canon_db((await env.dump(self.st))["kv"])
+        return canon_db(self.st.db.dump())
 
     async def step(self, op):
         import lmdb
@@ -128,6 +165,12 @@ class Driver:
             lmdb.arm(fault_at=op.get("fault"), kill_at=op.get("kill"))
         name = op["op"]
         out = None
+        hold = bool(op.get("hold"))
+        if hold and not self.held:
+            st.db._wlock.acquire()
+            self.held = True
+        if self.wedged:
+            return {"out": "writer-wedged", "bcast": False, "txns": [], "db": await self.dump()}
         try:
             if name == "submit":
                 try:
@@ -157,7 +200,13 @@ class Driver:
                     out = None if e is None else env.ev_obj(e)
                 except Exception:
                     out = "raise"
-            await env.quiesce(st)
+            if not hold:
+                if self.held:
+                    st.db._wlock.release()
+                    self.held = False
+                if not await self.quiesce():
+                    self.wedged = True
+                    out = "writer-wedged"
         finally:
             txns = canon_trace(list(lmdb.TRACE))
             lmdb.reset_controls()
@@ -191,7 +240,7 @@ async def run_history_all_faults(ops, validators, mode):
                 xs.append(o)
                 obs.append(b)
                 hit = any(t[0] != "commit" for t in b["txns"])
-                if not hit or k > 400:
+                if not hit or k > 400 or d.wedged:
                     break
                 k += 1
         return xs, obs
@@ -405,13 +454,15 @@ def gen_history(rng, n, signed=True, now=1000, ops_mix=True):
             ops.append({"op": "gc", "now": now})
         elif ops_mix and st["events"] and r < 0.24:
             ops.append({"op": "get", "id": rng.choice(st["events"])["id"], "now": now})
-        elif ops_mix and st["events"] and r < 0.28:
-            ev = rng.choice(st["events"])
+        elif ops_mix and [e for e in st["events"] if e["created_at"] != 0] and r < 0.28:
+            # the argument of a reindex is an event read from the store: created_at 0 is never stored (Event.__init__)
+            ev = rng.choice([e for e in st["events"] if e["created_at"] != 0])
             ix = rng.choice(["ids", "created_at", "kinds", "authors", "authorkinds", "tags"])
             if rng.random() < 0.5:
                 ops.append({"op": "reindex", "index": ix, "event": ev, "now": now})
             else:
-                ops.append({"op": "bulk", "index": ix, "events": [rng.choice(st["events"] + [None]) for _ in range(rng.randint(0, 3))], "now": now})
+                ops.append({"op": "bulk", "index": ix, "events": [rng.choice([e for e in st["events"] if e["created_at"] != 0] + [None])
+                                                                for _ in range(rng.randint(0, 3))], "now": now})
         else:
             ev = gen_event(rng, st, now, signed)
             if signed and rng.random() < 0.04:
@@ -469,8 +520,8 @@ PROPERTY_REPORTS = {
     "C09": ("replace", "plain"),
     "C08": ("delete",),
     "C17": ("gc", "del"),
-    "C06": ("ack",),
-    "KVW": ("coherence", "coherence-walker", "fault", "replace", "plain", "delete", "gc", "del", "ack", "unchanged"),
+    "C06": ("ack", "held"),
+    "KVW": ("coherence", "coherence-walker", "fault", "replace", "plain", "delete", "gc", "del", "ack", "unchanged", "held"),
 }
 # labels that are open findings rather than violations, per property -> classifier name
 FINDING_CLASS = {
@@ -485,6 +536,8 @@ def oracle_history(suite, ops, iobs, reports, prop="KVW"):
     kinds = PROPERTY_REPORTS[prop]
     for i, (op, io, rep) in enumerate(zip(ops, iobs, reports)):
         labels = [(k, l) for k, l in rep if l != "ok"]
+        if io["out"] == "writer-wedged" or any(t[0] == "open" for t in io["txns"]):
+            labels.insert(0, ("fault", "writer-wedged-later-operations-not-applied"))
         w = walk_coherent(io["db"])
         coq_coh = dict(rep).get("coherence")
         if w != coq_coh:
@@ -814,48 +867,42 @@ def suite_gc(tier, seed, prop="C17"):
 
 
 def suite_inflight(tier, seed, prop="C06"):
-    """the same event submitted again while its first "add" is still queued (writer held at its transaction lock)"""
+    """submissions while the writer thread is held before its transaction (steps with "hold": true), then a release step:
+    the same event again, an event and its replacement, an event and its deletion, all still queued"""
     s = Suite("corr:kv-inflight")
-    s.rule = "a second submission of an event while the writer thread is held before its first transaction; implementation only (oracle)"
-    s.validators = list(SIGNED)
-
-    async def one(ev):
-        d = await Driver(SIGNED).open()
-        try:
-            lock = d.st.db._wlock
-            lock.acquire()
-            outs = []
-            try:
-                for _ in range(2):
-                    try:
-                        _, ok = await d.st.add_event(json.loads(json.dumps(ev)))
-                        outs.append("true" if ok else "duplicate")
-                    except Exception:
-                        outs.append("raise")
-                    outs.append(len(d.bcasts))
-            finally:
-                lock.release()
-            await env.quiesce(d.st)
-            return outs, await d.dump()
-        finally:
-            await d.close()
+    s.rule = ("histories whose first 2-5 steps are submitted while the writer thread is held at its transaction lock (so they only queue), "
+              "among them the same event twice, an event and its replacement / deletion, storage.delete_event of a queued id; then a release "
+              "step (the writer drains the queue) and sequential resubmissions; acknowledgement, broadcast flag, traces of the drained "
+              "transactions and keyspace vs the model with an explicit queue and in-flight set; non-trivial = some commit deleted keys")
     rng = rng_for(seed, "kv-inflight")
-    for i in range(3 if tier == "quick" else 30):
-        ev = mk(rng.choice(AUTHORS), rng.choice([1, 10000, 30000]), 100 + i, [["t", "x"]], content="inflight%d" % i)
-        outs, db = env.run(one(ev))
-        case = {"ops": [S(ev), S(ev)], "held": True}
-        s.case({"event": brief_op(S(ev))["event"], "outs": outs}, nontrivial=True)
-        s.count("second_" + str(outs[2]))
-        if outs[0] == "true" and outs[2] == "true":
-            s.violate("kv_duplicate_in_flight", case, "an event submitted again while its first add is still queued is acknowledged OK=true and broadcast a second time",
-                      expected=["true", 1, "duplicate", 1], observed=outs)
+    hs = []
+    n = 40 if tier == "quick" else 500
+    for i in range(n):
+        who = rng.choice(AUTHORS)
+        kind = rng.choice([1, 10000, 30000, 0])
+        a = mk(who, kind, 100, [["t", "x"]] + d_tags("a" if kind == 30000 else None), content="a%d" % i)
+        b = mk(who, kind, 200, d_tags("a" if kind == 30000 else None), content="b%d" % i)
+        dele = mk(who, 5, 300, [["e", a["id"]]], content="d%d" % i)
+        pool = [a, a, b, dele, mk(rng.choice(AUTHORS), 20000, 100, [], content="e%d" % i)]
+        ops = []
+        for _ in range(rng.randint(2, 5)):
+            if rng.random() < 0.12:
+                ops.append({"op": "del", "id": a["id"], "now": 1000, "hold": True})
+            else:
+                ops.append(S(rng.choice(pool), hold=True))
+        ops.append({"op": "release", "now": 1000})
+        for _ in range(rng.randint(0, 2)):
+            ops.append(S(rng.choice(pool)))
+        hs.append(ops)
+    run_batch(s, hs, SIGNED, prop=prop)
     return s
 
 
 def suites_all(tier, seed):
     return [suite_corpus(None, "KVW"), suite_submit(tier, seed, "KVW"), suite_submit_unsigned(tier, seed, "KVW"),
             suite_fault(tier, seed, "fault", "KVW"), suite_fault(tier, seed, "kill", "KVW"),
-            suite_replace_orders(tier, seed, "KVW"), suite_delete_matrix(tier, seed, "KVW"), suite_gc(tier, seed, "KVW")]
+            suite_replace_orders(tier, seed, "KVW"), suite_delete_matrix(tier, seed, "KVW"), suite_gc(tier, seed, "KVW"),
+            suite_inflight(tier, seed, "KVW"), suite_concurrent_duplicates(tier, seed, "KVW")]
 
 
 def suites_c10(tier, seed):
@@ -883,7 +930,8 @@ def suites_c17(tier, seed):
 
 def suites_c06(tier, seed):
     return [suite_corpus("C06", "C06"), suite_submit(tier, seed, "C06"), suite_submit_unsigned(tier, seed, "C06"),
-            suite_fault(tier, seed, "fault", "C06", n_quick=8), suite_inflight(tier, seed, "C06")]
+            suite_fault(tier, seed, "fault", "C06", n_quick=8), suite_inflight(tier, seed, "C06"),
+            suite_concurrent_duplicates(tier, seed, "C06")]
 
 
 # ----------------------------------------------------------------------------- replay
@@ -895,8 +943,8 @@ def replay(payload, prop="KVW"):
     if not ops:
         print("replay: nothing to replay")
         return 0
-    if case.get("held"):
-        s = suite_inflight("quick", 0)
+    if case.get("concurrent"):
+        s = suite_concurrent_duplicates("quick", 0)
         bad = s.violations
     else:
         s = Suite("replay")
@@ -909,3 +957,79 @@ def replay(payload, prop="KVW"):
         print("model/implementation still disagree at step", x["case"].get("step"), "field", x["case"].get("field"))
     print("replay:", "FAIL" if bad else "pass")
     return 1 if bad else 0
+
+
+def write_witnesses():
+    """(re)create the witness replays of the open findings of findings.d/KVW.txt"""
+    import os
+    from .common import REPLAYS, jsonable
+    install()
+    os.makedirs(REPLAYS, exist_ok=True)
+    ev = mk(0, 1, 100, [["t", "x"]], content="witness")
+    items = {
+        "KVW-engine-failure-after-ack.json": {
+            "property": "C06", "kind": "failing-input", "replay": "./check C06 --replay <this file>",
+            "violation": {"suite": "corr:kv-fault", "cls": "kv_engine_failure_after_ack",
+                          "case": {"ops": [S(ev, fault=0)], "step": 0, "validators": SIGNED},
+                          "what": "OK=true and broadcast, then the engine fails at the first mutation of the writer's transaction: the event is not stored",
+                          "expected": "stored", "observed": "engine-failure-after-ack"}},
+    }
+    for name, payload in items.items():
+        with open(os.path.join(REPLAYS, name), "w") as f:
+            json.dump(jsonable(payload), f, indent=1, sort_keys=True)
+    return sorted(items)
+
+
+def suite_concurrent_duplicates(tier, seed, prop="C06"):
+    """k concurrent add_event calls for the same event (asyncio.gather; two clients relaying the same event at the same moment),
+    with one live subscriber: exactly one OK=true, one broadcast, one stored record.  Implementation only (oracle)."""
+    import asyncio
+    s = Suite("corr:kv-concurrent-duplicates")
+    s.rule = ("asyncio.gather of k in {2,3,5} add_event calls of one signed event (kinds 1 / 10000 / 30000 / 20000), writer free or held at its "
+              "transaction lock, followed by a sequential resubmission; expected: exactly one True, one broadcast, the rest False (all True and one "
+              "broadcast each for an ephemeral kind); implementation only")
+    s.validators = list(SIGNED)
+
+    async def one(ev, k, held):
+        d = await Driver(SIGNED).open()
+        try:
+            lock = d.st.db._wlock
+            if held:
+                lock.acquire()
+            try:
+                async def sub(e):
+                    try:
+                        _, ok = await d.st.add_event(json.loads(json.dumps(e)))
+                        return "true" if ok else "duplicate"
+                    except Exception:
+                        return "raise"
+                outs = list(await asyncio.gather(*[sub(ev) for _ in range(k)]))
+            finally:
+                if held:
+                    lock.release()
+            await d.quiesce()
+            later = await sub(ev)
+            await d.quiesce()
+            db = await d.dump()
+            return outs, later, len(d.bcasts_all), sum(1 for key, r in db if key[:1] == b"\x00")
+        finally:
+            await d.close()
+    rng = rng_for(seed, "kv-concurrent-duplicates")
+    n = 12 if tier == "quick" else 150
+    for i in range(n):
+        kind = rng.choice([1, 1, 10000, 30000, 20000])
+        ev = mk(rng.choice(AUTHORS), kind, 100 + i, [["t", "x"]] + d_tags("a" if kind == 30000 else None), content="conc%d" % i)
+        k = rng.choice([2, 3, 5])
+        held = rng.random() < 0.5
+        outs, later, nb, nrec = env.run(one(ev, k, held))
+        eph = 20000 <= kind < 30000
+        s.case({"kind": kind, "k": k, "held": held, "outs": outs, "later": later, "broadcasts": nb, "records": nrec}, nontrivial=True)
+        s.count("k_%d" % k)
+        s.count("held" if held else "free")
+        s.count("true_%d" % outs.count("true"))
+        want = (["true"] * k, "true", k + 1, 0) if eph else (["true"] + ["duplicate"] * (k - 1), "duplicate", 1, 1)
+        got = (sorted(outs, reverse=True), later, nb, nrec)
+        if got != want:
+            s.violate("kv_duplicate_in_flight", {"ops": [S(ev)] * k, "held": held, "concurrent": k, "validators": SIGNED},
+                      "concurrent submissions of one event: more than one OK=true / broadcast", expected=list(want), observed=list(got))
+    return s
